@@ -46,6 +46,8 @@ package core
 //@ func (id ActionID) Validate() (err)
 //@   pure-verdict okAction
 //@   ensures[base] err == nil ==> id != ACTION_UNSUPPORTED
+//   there are two supported action identifiers (the enum's name table)
+//@   ensures[base] err == nil ==> id == ACTION_FEE || id == ACTION_SWAP
 
 //@ func (id ProtocolID) Validate() (err)
 //@   pure-verdict okProto
@@ -54,11 +56,13 @@ package core
 
 // An accepted action: non-nil, supported identifier, attributes present.
 //@ macro actionOK(a) = a != nil && okAction(a.Id) && a.Id != ACTION_UNSUPPORTED && a.Attributes != nil
+//@ macro actionIdIn(a) = a.Id == ACTION_FEE || a.Id == ACTION_SWAP
 // An accepted forwarding: non-nil, supported protocol identifier, attributes present.
 //@ macro forwardingOK(f) = f != nil && okProto(f.ProtocolId) && f.ProtocolId != PROTOCOL_UNSUPPORTED && f.Attributes != nil
 
 //@ func (a *Action) Validate() (err)
 //@   ensures[base,C15] err == nil ==> actionOK(a)
+//@   ensures[base] err == nil ==> actionIdIn(a)
 
 //@ func (f *Forwarding) Validate() (err)
 //@   ensures[base,C15] err == nil ==> forwardingOK(f)
@@ -73,6 +77,9 @@ package core
 //@   loop 0 invariant[base] forall j int :: 0 <= j && j < idx ==> mapHas(visitedIDs, p.PreActions[j].Id)
 //@   loop 0 invariant[base] forall i int, j int :: 0 <= i && i < j && j < idx ==> p.PreActions[i].Id != p.PreActions[j].Id
 //@   loop 1 invariant[base] forall j int :: 0 <= j && j < idx ==> actionOK(p.PreActions[j])
+//   at most two actions (pigeonhole on the two supported identifiers, with the first two elements named explicitly)
+//@   loop 1 invariant[base] idx <= 2 && (idx >= 1 ==> actionIdIn(p.PreActions[0])) && (idx >= 2 ==> actionIdIn(p.PreActions[1]) && p.PreActions[0].Id != p.PreActions[1].Id)
+//@   ensures[base] err == nil ==> len(p.PreActions) <= 2
 //@   ensures[base,C15] err == nil ==> p != nil && forwardingOK(p.Forwarding)
 //@   ensures[base,C15] err == nil ==> actionsOK(p)
 //@   ensures[base,C15] err == nil ==> actionsDistinct(p)
